@@ -678,7 +678,7 @@ package lang
 //@   requires expr != nil
 //@   ensures tokOKT(result)
 //@   pure
-//@ func Evaluator.callFunction [C01,C02,C07,C08,C11,C12,C20]
+//@ func Evaluator.callFunction [C01,C02,C07,C08,C09,C11,C12,C20]
 //@   modifies valueHeap, e.stackTop, e.returnVal, e.evalDepth
 //@   ensures[C20] depth-restored: e.evalDepth == old(e.evalDepth)
 //@   requires evOK(e) && exp != nil && fn != nil && !$faulted
@@ -703,7 +703,8 @@ package lang
 //@   ensures[C07,C08] other-outcomes-propagate: fn.Value.Tag == ValueFn && $bodyRan && $bodyOut != nil && $bodyOut != errReturn ==> err == $bodyOut
 //@   assert[C08] body-runs-in-a-fresh-frame: e.stackTop == $frame && fresh(e.stackTop) && arg1 == fn.Value.Fn.Body @ Evaluator.evalStatement
 //@   loop 0 invariant protocol: evOK(e) && e.stackTop == $frame && $frame.parent == old(e.stackTop) && !$faulted && !$bodyRan && e.evalDepth == old(e.evalDepth)
-//@   loop 0 invariant[C08] parameters-bound-by-position: forall k int :: 0 <= k && k <= rangeindex ==> has($frame.locals, fn.Value.Fn.Args[k]) && fresh($frame.locals[fn.Value.Fn.Args[k]])
+//@   loop 0 invariant[C08,C09] parameters-live-in-distinct-cells: forall j int, k int :: 0 <= j && j < k && k <= rangeindex && fn.Value.Fn.Args[j] != fn.Value.Fn.Args[k] ==> $frame.locals[fn.Value.Fn.Args[j]] != $frame.locals[fn.Value.Fn.Args[k]]
+//@   loop 0 invariant[C08] parameters-bound-by-position: forall k int :: 0 <= k && k <= rangeindex ==> has($frame.locals, fn.Value.Fn.Args[k]) && fresh($frame.locals[fn.Value.Fn.Args[k]]) && allocated($frame.locals[fn.Value.Fn.Args[k]])
 
 //@ ghost $eqSeen bool
 //@ ghost $failMark int
@@ -1430,17 +1431,17 @@ package lang
 // getArrayPrototype/sort$1 below.  That the result is a stably sorted permutation is the assumed contract
 // of slices.SortStableFunc.
 //@ ghost $stableSort bool
-//@ func getArrayPrototype/sort [C15]
+//@ func getArrayPrototype/sort [C09,C15]
 //@   implements Value.NativeFn
 //@   init $stableSort = false
 //@   after slices.SortStableFunc[[]*github.com/alligator/jqawk/src.Cell *github.com/alligator/jqawk/src.Cell]: $stableSort = true
 //@   assume array-elements-are-never-functions: arg0.Value.Tag != ValueFn && arg0.Value.Tag != ValueNativeFn @ copyValue
 //@   ensures[C15] no-receiver: this == nil ==> err == nil && result0 == nil
-//@   ensures[C15] sorted-copy: this != nil ==> err == nil && result0 != nil && fresh(result0) && result0.Tag == ValueArray && len(result0.Array) == len(this.Array) && fresh(result0.Array)
+//@   ensures[C09,C15] sorted-copy: this != nil ==> err == nil && result0 != nil && fresh(result0) && result0.Tag == ValueArray && len(result0.Array) == len(this.Array) && fresh(result0.Array)
 //@   ensures[C15] stable-sort: this != nil ==> $stableSort
 //@   modifies nothing
 //@   loop 0 invariant scan: !$faulted
-//@   loop 1 invariant copying: !$faulted && fresh(clone) && len(clone) == len(this.Array) && (forall k int :: 0 <= k && k <= rangeindex ==> clone[k] != nil && fresh(clone[k]))
+//@   loop 1 invariant[C09,C15] copying: !$faulted && fresh(clone) && len(clone) == len(this.Array) && (forall k int :: 0 <= k && k <= rangeindex ==> clone[k] != nil && fresh(clone[k]))
 
 // ---------------------------------------------------------------- JSON output (C04)
 
